@@ -87,6 +87,7 @@ func jsontraceMain(args []string) int {
 	maxCuts := fs.Int("maxcuts", 48, "cut points per document (all if the document is shorter)")
 	parseEvery := fs.Int("parse-every", 8, "log json.Parse records for one detection in N")
 	report := fs.String("out", "", "report path")
+	subOnly := fs.Bool("subtype-only", false, "only generate sub-type documents (C10)")
 	fs.Parse(args)
 
 	nodes := loadJSONNodes()
@@ -120,7 +121,7 @@ func jsontraceMain(args []string) int {
 	for d := 0; d < *docs; d++ {
 		var doc string
 		switch {
-		case d%3 == 1:
+		case *subOnly || d%3 == 1:
 			doc = g.subtypeDoc()
 		case d%7 == 3:
 			doc = g.mutate(g.doc())
